@@ -316,8 +316,6 @@ DUNDER_PICK = [
     "__add__", "__mod__", "__len__", "__getitem__", "__contains__", "__html__", "__html_format__", "__int__", "__slots__",
     "__weakref__", "__enter__", "__exit__", "__getattr__", "__delattr__", "__getstate__", "__class_getitem__",
 ]
-# names without a leading underscore that the sandbox classifies as internal on some type
-INTERNAL_PUBLIC = ["mro", "gi_frame", "gi_code", "cr_frame", "cr_code", "ag_frame", "ag_code"]
 # names that exist nowhere on Python 3 (the sandbox answers undefined for them): kept as a low-weight class
 LEGACY_NAMES = ["func_globals", "func_code", "func_closure", "func_defaults", "im_class", "im_func", "im_self", "__nonexistent__",
                 "_nonexistent"]
@@ -390,8 +388,6 @@ _ENGINE_RECV = [
 def _name_pool(obj):
     """Private / internal attribute names worth trying on obj: every single-underscore name it has, the
     picked dunder names it has, and the public names the sandbox classifies as internal for its type."""
-    from jinja2.sandbox import is_internal_attribute
-
     try:
         listed = dir(obj)
     except Exception:  # noqa: BLE001
@@ -399,8 +395,26 @@ def _name_pool(obj):
     pool = [n for n in listed if n.startswith("_") and not (n.startswith("__") and n.endswith("__"))]
     pool += [n for n in TRACER_NAMES + ["_Namespace__attrs", "_TemplateReference__context"] if n not in pool and _has(obj, n)]
     pool += [n for n in DUNDER_PICK if _has(obj, n)]
-    pool += [n for n in listed if not n.startswith("_") and is_internal_attribute(obj, n)]
+    pool += [n for n in listed if not n.startswith("_") and _documented_internal(obj, n)]
+    if isinstance(obj, type):
+        pool.append("mro")  # lives on the metaclass, so dir(cls) does not list it
     return pool or ["__class__"]
+
+
+def _documented_internal(obj, n):
+    """The documented classification of public names as internal (sandbox docs / is_internal_attribute docstring and
+    the UNSAFE_* constants), written down here so that the generator does not consult the code under test."""
+    if isinstance(obj, type):
+        return n == "mro"
+    if isinstance(obj, (types.CodeType, types.TracebackType, types.FrameType)):
+        return True
+    if isinstance(obj, types.GeneratorType):
+        return n in ("gi_frame", "gi_code")
+    if isinstance(obj, types.CoroutineType):
+        return n in ("cr_frame", "cr_code")
+    if isinstance(obj, types.AsyncGeneratorType):
+        return n in ("ag_frame", "ag_code")
+    return False
 
 
 def _has(obj, n):
@@ -418,8 +432,6 @@ def pools():
     """-> dict(data=[(base, hops, names)...], engine=[(pre, expr, suf, names)...], all=[names])  (built once)."""
     if _pools:
         return _pools
-    import warnings
-
     w = World()
     try:
         data = []
@@ -1237,6 +1249,22 @@ def call_core_cases():
             for env, is_async in CALL_ENVS:
                 k += 1
                 yield build_call_case(env, is_async, c, p, k % len(ARGS), rk[(k // 3) % len(rk)] if k % 3 == 0 else "plain")
+
+
+def call_full_cases():
+    """The complete product path x callable x argument shape x wrapper x environment (thorough tier)."""
+    seen = set()
+    for p in sorted(CALL_PATHS):
+        for c in sorted(CALLABLES):
+            for a in range(len(ARGS)):
+                for r in sorted(REACH):
+                    for env, is_async in CALL_ENVS:
+                        case = build_call_case(env, is_async, c, p, a, r)
+                        key = (case["src"], env, is_async)
+                        if key in seen:  # wrappers collapse to "plain" for block-defining paths
+                            continue
+                        seen.add(key)
+                        yield case
 
 
 @st.composite
